@@ -27,6 +27,8 @@ func main() {
 		dispMain(args)
 	case "sys":
 		sysMain(args)
+	case "lin":
+		linMain(args)
 	default:
 		fmt.Fprintln(os.Stderr, "unknown sub-command", cmd)
 		os.Exit(2)
